@@ -17,8 +17,8 @@ PROPS = {}
 # properties not claimed (yet or ever), with the one-line reason that goes into MANIFEST.not_applicable
 _WIP = "check not built yet in this round (planned, see DESIGN.md section 5)"
 NOT_APPLICABLE = {
-    "C01": _WIP, "C02": _WIP, "C04": _WIP, "C05": _WIP, "C06": _WIP, "C07": _WIP, "C09": _WIP,
-    "C11": _WIP, "C12": _WIP, "C13": _WIP, "C14": _WIP, "C15": _WIP,
+    "C01": _WIP, "C02": _WIP, "C04": _WIP, "C06": _WIP, "C09": _WIP,
+    "C11": _WIP, "C12": _WIP, "C14": _WIP, "C15": _WIP,
     "C03": "accept/reject and AST construction live in a proc-macro-generated PEG parser over `str`; Verus cannot reason about str/macro output and Kani cannot carry a symbolic text past the mandatory header, so no contract within reach states 'accepts exactly this language'",
     "C16": "composes core::fmt/pad string formatting with the pest parser over all ASTs; both halves are str-level and outside what Verus accepts or Kani can bound meaningfully",
     "C17": "behaviour is spread over crossterm event polling, tui rendering, a nom grammar over str and a filesystem completer: terminal/filesystem effects and string combinators neither verifier can execute or specify",
@@ -53,6 +53,60 @@ PROPS["C10"] = {
         {"obligation": "C10.W.ram.frame", "text": "addr<=0xEF ==> write(addr,byte) yields exactly old[ram[addr]:=byte] (every other field bit-identical)", "domain": "symbolic Bus x 240 addresses x 256 bytes"},
         {"obligation": "C10.W.io.ram-untouched", "text": "addr>=0xF0 ==> ram' == ram", "domain": "symbolic"},
     ],
+    "trusted": [],
+    "assumptions": [],
+}
+
+ST_ALU = ("emulator-2a-lib/src/machine/alu.rs", "st_alu.rs", "verif_st_alu")
+ST_RAW = ("emulator-2a-lib/src/machine/raw/mod.rs", "st_raw.rs", "verif_st_raw")
+ST_ALL = [ST_ALU, ST_BOARD, ST_BUS, ST_RAW]
+
+PROPS["C13"] = {
+    "inject": ST_ALL + [("emulator-2a-lib/src/machine/raw/mod.rs", "c13_raw.rs", "verif_c13")],
+    "functions": ["RawMachine::trigger_clock_edge", "RawMachine::trigger_key_edge_interrupt", "RawMachine::trigger_key_continue",
+                  "RawMachine::cpu_reset", "RawMachine::master_reset", "RawMachine::set_stacksize", "RawMachine::set_programsize",
+                  "RawMachine::is_stackpointer_valid", "RawMachine::is_program_counter_valid", "Signals::* (all decoders)"],
+    "timeout": 900,
+    "technique": "representation invariant wf preserved + Kani's panic/overflow/bounds obligations on every public mutator from an arbitrary wf state (inductive invariant), Kani/CBMC",
+    "level_text": "Proof: for every public mutator op and every invariant-satisfying machine state (all fields symbolic), op returns normally and re-establishes the invariant; with the base case (power-on state) this covers every RAM image, limit setting and interleaving by induction.",
+    "level_note": "Trusted: Kani/CBMC, rustc. Precondition set_stacksize(!= NotSet) is justified at its only call site (Machine::load). Termination of the assembly-step loop is C11's obligation.",
+    "samples": [{"obligation": "C13.edge.wf-preserved", "text": "wf(m) ==> trigger_clock_edge(m) returns without panic/overflow/OOB and wf(m')", "domain": "512 micro-addresses x 256 IR x symbolic registers, RAM, latches, limits, board"}],
+    "trusted": [],
+    "assumptions": ["wf includes 'stack size != NotSet' (established by RawMachine::new and kept by Machine::load) and 'level-interrupt latch empty' (no level source exists in the bus)"],
+}
+
+ST_MACHINE = ("emulator-2a-lib/src/machine/mod.rs", "st_machine.rs", "verif_st_machine")
+
+PROPS["C05"] = {
+    "inject": ST_ALL + [ST_MACHINE, ("emulator-2a-lib/src/machine/raw/mod.rs", "c05_raw.rs", "verif_c05"),
+                        ("emulator-2a-lib/src/machine/mod.rs", "c05_machine.rs", "verif_c05m")],
+    "functions": ["RawMachine::trigger_clock_edge", "RawMachine::is_stackpointer_valid", "RawMachine::is_program_counter_valid",
+                  "RawMachine::trigger_key_continue", "RawMachine::trigger_key_edge_interrupt", "RawMachine::cpu_reset/master_reset",
+                  "RawMachine::set_stacksize/set_programsize", "Machine::set_* (13 setters)", "Machine::load (limits)"],
+    "timeout": 900,
+    "technique": "single-edge postconditions (exact halt clause, absorption as whole-state equality) and an inductive supervision invariant over a fully symbolic machine, Kani/CBMC",
+    "level_text": "Proof: the exact state' clause, the absorbing-halt clause (whole-struct equality) and the invariant 'not error-stopped => SP/PC rules hold' are discharged for one clock edge / key / reset / setter from every invariant-satisfying machine state with symbolic stack and program size; by induction they hold after every history.",
+    "level_note": "Trusted: Kani/CBMC, rustc. Band constants and 'IR is loaded' (MAC0 & MAC2 & !MAC1) are characterised from the pinned tree; when a limit-breaking commit and a STOP fetch coincide the clause gives the error stop priority.",
+    "samples": [{"obligation": "C05.E.halt.edge-changes-nothing", "text": "state != Running ==> trigger_clock_edge(m) == m (all fields)", "domain": "fully symbolic wf machine"},
+                {"obligation": "C05.E.super.error-stop-exactly-when", "text": "Running & no wait ==> (state' == ErrorStopped <=> (commit & !(sp_ok' & pc_ok')) | (IR load & byte == 0))", "domain": "fully symbolic wf machine, 5 stack sizes x Size(0..255)/Auto/NotSet"}],
+    "trusted": [],
+    "assumptions": [],
+}
+
+PROPS["C07"] = {
+    "inject": ST_ALL + [ST_MACHINE,
+                        ("emulator-2a-lib/src/machine/board.rs", "c07_board.rs", "verif_c07b"),
+                        ("emulator-2a-lib/src/machine/bus.rs", "c07_bus.rs", "verif_c07u"),
+                        ("emulator-2a-lib/src/machine/raw/mod.rs", "c07_raw.rs", "verif_c07"),
+                        ("emulator-2a-lib/src/machine/mod.rs", "c07_machine.rs", "verif_c07m")],
+    "functions": ["Board::master_reset", "Bus::cpu_reset", "Bus::master_reset", "RawMachine::cpu_reset", "RawMachine::master_reset",
+                  "Machine::cpu_reset", "Machine::master_reset", "Machine::load"],
+    "timeout": 900,
+    "technique": "postcondition + frame contracts on each reset/load function from an arbitrary (fully symbolic, not only invariant-satisfying) pre-state, Kani/CBMC",
+    "level_text": "Proof: each reset function's postcondition (documented fields at power-on values, documented frame bit-identical) is discharged from every possible pre-state, so it holds after any history; load = master reset + RAM image + limits.",
+    "level_note": "Trusted: Kani/CBMC, rustc. MISR, UART bytes, DAISR and the non-jumper DASR bits are not named by the statement and left unconstrained. R.load is BOUNDED in the image length (<= 6 symbolic bytes over 3 lines). The 'runs cycle-for-cycle as on a new machine' consequence rests on the edge being a function of the CPU projection (argued, see DESIGN).",
+    "bounded": ["c07_load: image length <= 6 bytes over three lines (unwind 10); the fill loop is uniform in the address"],
+    "samples": [{"obligation": "C07.R.master.bus-and-board", "text": "master_reset: inputs/timer/outputs/MICR/UCR power-on, board outputs/DAICR/fan/UIO directions power-on, RAM and board inputs bit-identical", "domain": "every field of RawMachine symbolic incl. all f32 bit patterns"}],
     "trusted": [],
     "assumptions": [],
 }
